@@ -41,6 +41,9 @@ def model_runs(ck):
             tlc.require_ok(r, label)
 
 
+LAST_RESULTS = {}      # path -> the results dictionary handed to the writer (independent of the file format)
+
+
 def make_trace(path, n, chains, entries, seed, clustered=False):
     """A real trace file from real trees (the writer under test is create_main_run_output)."""
     import numpy as np
@@ -67,6 +70,7 @@ def make_trace(path, n, chains, entries, seed, clustered=False):
         with open(cf, "w") as fh:
             fh.write("mutation_id\tcluster_id\n" + "".join("mut%d_a\t%d\nmut%d_b\t%d\n" % (i, 10 + i, i, 10 + i) for i in range(n)))
     create_main_run_output(cf, path, results)
+    LAST_RESULTS[path] = results
     return os.path.getsize(path)
 
 
@@ -201,9 +205,7 @@ def real_crash(ck, workdir, seed):
     path = os.path.join(d, "trace.pkl.gz")
     ref_new = os.path.join(d, "new_complete.pkl.gz")
     make_trace(ref_new, 3, 2, 30, seed + 5)
-    import gzip
-    with gzip.GzipFile(ref_new, "rb") as fh:
-        results_new = pickle.load(fh)
+    results_new = LAST_RESULTS[ref_new]
     size_new = os.path.getsize(ref_new)
     full_new = run_commands(ref_new, env.scratch(os.path.join("c20_out", "crash_full")))
     limits = sorted({64, 700, size_new // 3, size_new // 2, size_new - 40, size_new - 3})
@@ -235,6 +237,59 @@ def real_crash(ck, workdir, seed):
                 except OSError:
                     pass
     ck.extra["real_crash_limits"] = limits
+    # the write is interrupted by an exception that unwinds the writer (Ctrl-C, a full disk reported by write()): the
+    # clean-up code of the writer runs, the process then ends.  Injection point: the gzip stream's write().
+    import gzip as _gz
+    total = [0]
+    orig_write = _gz.GzipFile.write
+
+    def counting(self_, data_):
+        total[0] += len(data_)
+        return orig_write(self_, data_)
+
+    _gz.GzipFile.write = counting
+    try:
+        create_main_run_output(None, os.path.join(d, "dry.pkl.gz"), results_new)
+    finally:
+        _gz.GzipFile.write = orig_write
+    os.remove(os.path.join(d, "dry.pkl.gz"))
+    points = sorted({1, total[0] // 7, total[0] // 3, total[0] // 2, (2 * total[0]) // 3, (5 * total[0]) // 6, total[0] - 5})
+    for mode in ("interrupt", "disk_full"):
+        for k in points:
+            make_trace(path, 2, 1, 2, seed + 6)
+            run_commands(path, d)
+            pid = os.fork()
+            if pid == 0:
+                try:
+                    seen = [0]
+                    fired = [False]
+
+                    def failing(self_, data_):
+                        if (mode == "disk_full" and fired[0]) or (not fired[0] and seen[0] + len(data_) >= k):
+                            fired[0] = True
+                            if mode == "interrupt":
+                                raise KeyboardInterrupt()
+                            raise OSError(28, "No space left on device")
+                        seen[0] += len(data_)
+                        return orig_write(self_, data_)
+
+                    _gz.GzipFile.write = failing
+                    try:
+                        create_main_run_output(None, path, results_new)
+                    except BaseException:  # noqa - the run dies with this exception
+                        pass
+                finally:
+                    os._exit(0)
+            os.waitpid(pid, 0)
+            res = run_commands(path, d)
+            ck.evaluations += 3
+            ck.traces_validated += 1
+            ck.nontrivial("crash:%s:%d" % (mode, k))
+            for cmd, (st, dig) in res.items():
+                if st == "ok" and dig != full_new[cmd][1]:
+                    ck.violation("C20|partial_after_%s|%s" % (mode, cmd), "the write of the trace was cut short by %s after %d of %d (uncompressed) bytes and the writer unwound; %s then produced results that are not those of the complete run" % (
+                        "an interrupt" if mode == "interrupt" else "a full disk", k, total[0], cmd), {"mode": mode, "bytes": k, "total": total[0], "command": cmd})
+    ck.extra["interrupted_write_points"] = points
 
 
 def run(corrupt=None):
